@@ -1,10 +1,101 @@
-/- driver handler for component Tree: requests whose first token belongs to it -/
+/-
+  driver handler for component Tree (property C16): replay the history of a real run through the
+  calculus model together with the event record `Book` (Ptx/Tab/Tree.lean), then build the tree.
+
+    tree <LOGIC> ## <trunk nodes ; …> ## <step> ## <step> … [## P]
+
+  steps as in the `replay` request of Ptx/Drv/Tab.lean; a final `P` says the run finished prematurely
+  (only the result word of the statistics depends on it).
+
+  answer:  ok <obs> @@ <stat> @@ <tree> @@ <stats>
+    obs    one entry per boundary (after the trunk, after every step), joined by ` ;; `:
+             <#branches> ! <indices in the open view> ! <len of every branch>
+    stat   one entry per branch, joined by ` || `:
+             <step added> <step closed|_> <parent|_> ! <pos:step of the nodes appended to this branch> ! <pos:step of its tick records>
+    tree   distinct=<n> T{ depth left right width leaf closed open has_open has_closed step dnc snc closed_step branch | nodes ; … | kids }
+    stats  <branches> <open> <closed> <steps> <distinct nodes> <result word>
+  or:      reject <i> <reason> @@ <obs so far>
+-/
 import Ptx.Wire
+import Ptx.Tab.Tree
+import Ptx.Drv.Tab
+import Ptx.Gen.All
 namespace Ptx.Drv.Tree
+open Ptx Ptx.Wire
+
+def joinNat (xs : List Nat) : String := " ".intercalate (xs.map toString)
+
+def showObs (bk : Book) : String :=
+  s!"{bk.tab.length} ! {joinNat bk.opens} ! {joinNat bk.lengths}"
+
+def optNat : Option Nat → String
+  | none => "_"
+  | some n => toString n
+
+def b01 (b : Bool) : String := if b then "1" else "0"
+
+def showStat (r : BRec) : String :=
+  let pos := List.range r.objs.length
+  let own := pos.filterMap (fun p => (r.addedAt p).map (fun s => s!"{p}:{s}"))
+  let tks := pos.filterMap (fun p => (r.tickedAt p).map (fun s => s!"{p}:{s}"))
+  s!"{r.stepAdded} {optNat r.stepClosed} {optNat r.parent} ! {" ".intercalate own} ! {" ".intercalate tks}"
+
+partial def showTree : Tree → String
+  | .mk i kids =>
+    let head := " ".intercalate
+      [toString i.depth, toString i.left, toString i.right, toString i.width, b01 i.leaf, b01 i.closed, b01 i.open_,
+       b01 i.hasOpen, b01 i.hasClosed, optNat i.step, toString i.dnc, toString i.snc, optNat i.closedStep,
+       if i.leaf then optNat i.branchId else "_"]
+    let nodes := " ; ".intercalate (i.nodes.map (·.node.toWire))
+    let ks := " ".intercalate (kids.map showTree)
+    "T{ " ++ head ++ " | " ++ nodes ++ " | " ++ ks ++ " }"
+
+def showErr : TreeErr → String
+  | .indexError => "IndexError" | .keyError => "KeyError" | .typeError => "TypeError" | .fuel => "fuel"
+
+def showStats (s : Stats) : String :=
+  s!"{s.branches} {s.openBranches} {s.closedBranches} {s.steps} {optNat s.distinctNodes} {s.result}"
+
+def finish (bk : Book) (obs : List String) (premature : Bool) : String :=
+  let stat := " || ".intercalate (bk.recs.map showStat)
+  let (tree?, treeS) : Option Tree × String :=
+    match Tree.build bk with
+    | .ok t => (some t, s!"distinct={optNat t.info.distinctNodes} " ++ showTree t)
+    | .error e => (none, "treeerr " ++ showErr e)
+  "ok " ++ " ;; ".intercalate obs.reverse ++ " @@ " ++ stat ++ " @@ " ++ treeS ++ " @@ " ++
+    showStats (bk.stats (!premature) tree?)
+
+def run (L : LogicData) (bk0 : Book) (steps : List (List Step)) (premature : Bool) : String :=
+  let rec go (bk : Book) (i : Nat) (obs : List String) : List (List Step) → String
+    | [] => finish bk obs premature
+    | alts :: rest =>
+        let outs := alts.map (bk.step L)
+        match outs.findSome? (fun | .ok bk' => some bk' | _ => none) with
+        | some bk' => go bk' (i + 1) (showObs bk' :: obs) rest
+        | none =>
+          let why := match outs.findSome? (fun | .raises w => some ("raises:" ++ w) | .broken => some "broken" | _ => none) with
+            | some w => w
+            | none => "illegal-step"
+          s!"reject {i} {why} @@ " ++ " ;; ".intercalate obs.reverse
+  go bk0 0 [showObs bk0] steps
 
 /-- `none` = not my request -/
 def handle (ts : List String) : Option String :=
   match ts with
+  | "tree" :: lg :: "##" :: rest =>
+      match Gen.byName lg with
+      | none => some "err:unknown-logic"
+      | some L =>
+        match splitAt "##" rest with
+        | trunkToks :: stepToks =>
+            let premature := stepToks.getLast? == some ["P"]
+            let stepToks := if premature then stepToks.dropLast else stepToks
+            match Drv.Tab.parseNodes trunkToks, stepToks.mapM Drv.Tab.parseStep with
+            | some nodes, some steps =>
+                if nodes.any Node.isClosure then some "err:wire"
+                else some (run L (Book.init nodes) steps premature)
+            | _, _ => some "err:wire"
+        | [] => some "err:wire"
   | _ => none
 
 end Ptx.Drv.Tree
